@@ -1,4 +1,5 @@
 import MtblProofs.MergerProofs
+import MtblProofs.SourceProofs
 /-
   C04 — Merger output is the sorted union of its sources, folded by the merge function.
   Sources are abstract cursors obeying the iterator contract (readers by C03, mergers, sorters, user sources).
@@ -32,6 +33,25 @@ theorem C04_nomerge (c : MCfg) (hF2 : c.fixF2 = true)
     Sorted (mergerDrain c fuel (mergerInit c srcs)) ∧
     (DSrcs c srcs → DSorted c (mergerDrain c fuel (mergerInit c srcs))) :=
   mergerDrain_nomerge c hF2 htot htrans hm srcs hs fuel hfuel
+
+/-- mtbl_source_write on a merger with a merge function: every merged entry is accepted by the writer, the call reports
+    success and the writer ends in the state of adding the merged content entry by entry — so the file it finishes is
+    `Writer.run` of the merged content, which reads back as exactly that content (C01) -/
+theorem C04_source_write (c : MCfg) (hF2 : c.fixF2 = true)
+    (htot : ∀ a b, hle c a b = true ∨ hle c b a = true)
+    (htrans : ∀ a b d, hle c a b = true → hle c b d = true → hle c a d = true)
+    {f : Bytes → Bytes → Bytes → Option Bytes} (hm : c.merge = some f) (hok : ∀ k a b, f k a b ≠ none)
+    (srcs : Array Src) (hs : ∀ s ∈ srcs.toList, Sorted s.es) (fuel : Nat)
+    (hfuel : (srcs.toList.map fun s => s.es.length).sum + 1 ≤ fuel) (cfg : WCfg) (pre : Nat) :
+    (W.new cfg pre).writeFrom (mergerDrain c fuel (mergerInit c srcs)) =
+      (.success, ((W.new cfg pre).addAll (mergerDrain c fuel (mergerInit c srcs))).2) :=
+  sourceWrite_sorted cfg pre _ (mergerDrain_merge c hF2 htot htrans hm hok srcs hs fuel hfuel).1
+
+/-- … and for any source (e.g. a merger without a merge function that delivers a key twice): the copy stops at the first
+    entry the writer refuses, reports failure, and the writer holds exactly the entries before it -/
+theorem C04_source_write_stops (w : W) (pre : List Entry) (e : Entry) (rest : List Entry)
+    (hp : ∀ r ∈ (w.addAll pre).1, r = Res.success) (he : ((w.addAll pre).2.add e.key e.val).1 = .failure) :
+    w.writeFrom (pre ++ e :: rest) = (.failure, (w.addAll pre).2) := writeFrom_stops w pre e rest hp he
 
 /-- one call, with a merge function: exhausted, or the minimum key with all its values folded once each,
     or — if the callback reports failure while that key is being assembled — the call returns failure -/
